@@ -346,6 +346,8 @@ class Agent:
         if flags & 2:
             self._salt = getattr(self, "_salt", 0) + 1
             salt = b"A" + self._salt.to_bytes(7, "big")
+            if u.priv[0] == "verifblock":          # block transform: zero padding to a multiple of 8 octets
+                scoped = scoped + b"\0" * (-len(scoped) % 8)
             payload = enc_str(stream(u.kpriv(engine), salt, scoped))
         if flags & 1:
             m0 = build_v3(msgid, 65507, flags, engine, boots, time, uname, b"\0" * 12, salt, payload, self.forms)
